@@ -23,7 +23,9 @@ partial def loop (p : Prog) (h : Hist) (s : St) (fuel : Nat) : IO Unit := do
     | some s' =>
       let s' ← flushTrace s'
       loop p h s' (fuel - 1)
-    | none => IO.println "end"
+    | none =>
+      IO.println (showOnces s)
+      IO.println "end"
 
 def runFile (path : String) : IO Unit := do
   let text ← IO.FS.readFile path
